@@ -12,6 +12,7 @@ import numpy
 from ....core.implementations import implementation
 from ....core.units import cm2int
 from ....core.units import kB_intK
+from ....core.managers import energy_units
 
 
 from ...hilbertspace.hamiltonian import Hamiltonian
@@ -67,7 +68,8 @@ class RedfieldRateMatrix:
         self.sbi = sbi
         
         if initialize: 
-            self._set_rates()          
+            with energy_units("int"):
+                self._set_rates()          
             self._is_initialized = True
                 
                 
